@@ -10,6 +10,9 @@ INVARIANT DoneRight
 INVARIANT RestUntouched
 INVARIANT ExistenceRule
 INVARIANT ExistsIffDataBelow
+INVARIANT ExistsOnlyAboveData
+INVARIANT VanishedOnlyByReduction
+INVARIANT MayOnlyColour
 INVARIANT StaleReplaced
 INVARIANT NeverStoredUndefined
 INVARIANT RangeRule
